@@ -4,8 +4,9 @@ import BearVerif.Core.Infer
 import BearVerif.Extracted.Infer
 /-!
   Line-protocol driver of C20 (type-hint inference):
-    (c20 WORLD TAB (CASE …))   -> (RESULT …)      one result per case
-    (c20wf WORLD TAB)          -> (builtin_sub tuple_only world_wf)   the hypotheses `I.Wf W`, `W.Wf` on the class table
+    (c20 run WORLD TAB (CASE …)) -> (RESULT …)    one result per case
+    (c20 wf WORLD TAB)         -> (builtin_sub tuple_only world_wf)   the hypotheses `I.Wf W`, `W.Wf` on the class table
+    (c20 tables)               -> fingerprint of the extracted tables the compiled model was built from
   WORLD = as for the Bear driver (sub rows, sized, indexable, reiter, mapping bits).
   TAB   = (cCallable cMapping cObject cInt cMarker (LOGIC per class) ((QUAL (MRO…) (METHODS…) SUBSCRIPTABLE) per class))
   CASE  = (tree STRAT OBJ)               -> (HINT inferable sat warnings)
@@ -130,6 +131,7 @@ def handle : List Sexp → Option Sexp
     let W ← worldOf w
     let T ← tabOf t
     pure (wfCheck W T)
+  | [.atom "tables"] => some (.atom Extracted.inferFingerprint)
   | [.atom "fsm", .list ms] => do
     let ms ← ms.mapM Sexp.str?
     pure (match fsmWalk ms Extracted.inferFsm with | some s => .atom s | none => .atom "none")
